@@ -15,7 +15,7 @@ theorem readExact_error {d : Bytes} {pos n : Nat} {e : Err} (h : readExact d pos
 
 /-- **simulation**: running a validated plan from a state related to the interpreted reader's (`Inv`) gives what the
     interpreted field loop (followed by the final alignment) gives, in the sense of `Sim` -/
-theorem sim_plan (cfg : Cfg) (al : Bool) (salign start : Nat) (data : Bytes) (hal : al = true → salign ∣ start) :
+theorem sim_plan (cfg : Cfg) (al : Bool) (salign start : Nat) (data : Bytes) :
     ∀ plan fs offs vst st ipos ibb, planOKAux cfg al salign plan fs offs vst = true →
       Inv start vst fs offs st.pos st.bb ipos ibb → SubSizesAux cfg data start fs offs →
       Sim (exec cfg salign start data plan fs st)
@@ -53,7 +53,14 @@ theorem sim_plan (cfg : Cfg) (al : Bool) (salign start : Nat) (data : Bytes) (ha
     | seek o =>
       simp only [planOKAux] at hok
       cases hdv : dropVoids cfg al fs offs vst.spos with
-      | none => rw [hdv] at hok; simp at hok
+      | none =>
+        -- the void fields stay under the cursor: the next statement passes them at the new position
+        rw [hdv] at hok
+        simp only [Bool.and_eq_true] at hok
+        obtain ⟨hns, hok⟩ := hok
+        rw [exec_seek]
+        exact ih fs offs _ { st with pos := start + o } ipos ibb hok
+          ⟨(by intro k hk; cases hk; rfl), Or.inl hns, (by intro _ a ha; cases ha), hinv.unit, hinv.bb⟩ hsub
       | some r =>
         obtain ⟨fs', offs', skipped⟩ := r
         rw [hdv] at hok
@@ -137,29 +144,10 @@ theorem sim_plan (cfg : Cfg) (al : Bool) (salign start : Nat) (data : Bytes) (ha
                 rcases hinv'.pos with h | h
                 · exact Or.inl h
                 · rw [hla] at h; simp only [LaMatch] at h; subst h; exact Or.inr rfl
-              split at hok
-              · rename_i k0 hsp
-                split at hok
-                · rename_i hc
-                  obtain ⟨hc1, hc2⟩ := hc
-                  have hp2 := isPow2b_spec hc2
-                  have hdv' : a ∣ start := Nat.dvd_trans (Nat.dvd_of_mod_eq_zero hc1) (hal hal')
-                  refine ih fs' offs' _ _ ipos' ibb' hok ?_ hsub'
-                  refine ⟨?_, hpos', ?_, hinv'.unit, hinv'.bb⟩
-                  · intro k1 hk1
-                    cases hk1
-                    show st.pos + padNat st.pos a = start + (k0 + padNat k0 a)
-                    rw [hinv'.spos k0 hsp, padNat_add_of_dvd (Or.inr hp2) start k0 hdv']
-                    omega
-                  · intro _ a' ha'
-                    cases ha'
-                    exact ⟨hp2, padNat_p2_dvd hp2 st.pos⟩
-                · cases hok
-              · rename_i hsp
-                refine ih fs' offs' _ _ ipos' ibb' hok ?_ hsub'
-                refine ⟨?_, hpos', ?_, hinv'.unit, hinv'.bb⟩
-                · intro k1 hk1; rw [hsp] at hk1; cases hk1
-                · intro h; exact (h hsp).elim
+              refine ih fs' offs' _ _ ipos' ibb' hok ?_ hsub'
+              refine ⟨?_, hpos', ?_, hinv'.unit, hinv'.bb⟩
+              · intro k1 hk1; cases hk1
+              · intro h; exact (h rfl).elim
     | bitsReset =>
       simp only [planOKAux, Bool.and_eq_true] at hok
       simp only [exec]
@@ -211,6 +199,10 @@ theorem sim_plan (cfg : Cfg) (al : Bool) (salign start : Nat) (data : Bytes) (ha
                 simp only at hk1
                 split at hk1
                 · rename_i o k0 z ho hk0 hz
+                  split at hk1
+                  · cases hk1
+                  rename_i hns
+                  simp only [Bool.not_eq_true] at hns
                   simp only [Option.some.injEq] at hk1
                   subst hk1
                   have hk0' := hso o ho
@@ -218,7 +210,7 @@ theorem sim_plan (cfg : Cfg) (al : Bool) (salign start : Nat) (data : Bytes) (ha
                   simp only [Option.some.injEq] at hk0'
                   subst hk0'
                   have hsp := hinv'.spos k0 hk0
-                  have := hsub'.1 rfl k0 z ho hz ctx' v p (by rw [← hsp]; exact hr)
+                  have := hsub'.1 rfl hns k0 z ho hz ctx' v p (by rw [← hsp]; exact hr)
                   show p = start + (k0 + z)
                   omega
                 · cases hk1
